@@ -300,6 +300,7 @@ impl C20 {
                     out.faults[F_ORDER_CHANGED] += 1;
                     any_order_change = true;
                 }
+                crate::engine::trace(|| format!("exec {} rep {}: hasher {:?} relabel {} -> map iteration order digest {:016x} (reference {:016x}), ops equal = {}", ei, rep, ex.hasher, ex.relabel, order, ref_order, r.ops == reference.ops));
                 if r.ops != reference.ops {
                     return fail(
                         "c20.same_ops",
